@@ -343,6 +343,13 @@ class Monitor:
             exp = max(0, dev.cycle_time + self.m.pending_offset.pop(name, 0))
             self.hstate[name] = (part, now, exp)
         elif isinstance(dev, Sink):
+            if 'log' in self.on:
+                recs_ = self.env.simulation_data.get('received_part', {}).get(name, [])
+                done_ = sum(len(leaves(p_)) for p_ in dev.collected_parts)
+                if len(recs_) != len(dev.collected_parts) or dev.received_parts_count != done_:
+                    self.bad('C15.sink-count', f'inside a receive callback of {name} at {now}: {len(recs_)} received_part '
+                             f'record(s), {len(dev.collected_parts)} collected item(s), received_parts_count '
+                             f'{dev.received_parts_count} for {done_} collected part(s)')
             # a sink accepts the next part no sooner than its cycle time (one-shot offsets included) after this one
             nxt = self.sink_next.get(name)
             if 'cycle' in self.on and nxt is not None and now < nxt[0] - self.tol:
@@ -383,7 +390,8 @@ class Monitor:
                 rec['out'] += ids
                 rec['emitted'] += 1
                 if 'batch' in self.on:
-                    size = giver.output_batch_size
+                    # the size the model configured (not what the batcher reports about itself)
+                    size = self.m.specs.get(giver.name, {}).get('size', giver.output_batch_size)
                     if size is None and isinstance(part, Batch) and False:
                         pass
                     if size is not None and (not isinstance(part, Batch) or len(part.parts) != size):
@@ -1056,6 +1064,13 @@ class Monitor:
             self.cycle_check(True)
         if 'route' in on:
             self.route_check()
+        if 'wake' in on:
+            for d in self.devs:
+                if isinstance(d, Source) and d._output is None and d.remaining_parts >= 1 and d.is_operational() \
+                        and not any(e.asset_id == d.id and not e.cancelled for e in env._events) \
+                        and not any(e.asset_id == d.id and not e.cancelled for e in env._paused_events):
+                    self.bad('C03.source-dead', f'{d.name} has {d.remaining_parts} part(s) left to supply, holds none and has no '
+                             f'event pending when time advances from {now}: it will never supply again')
         cands = []
         for d in self.devs:
             p = ready_part(d, env, self.strict_ready)
